@@ -8,8 +8,8 @@ LEVEL_TEXT = ("SerialPause.tla and ParEngine.tla place Pause/Continue at every l
               "while paused and completion after Continue. On the real engines a controller parks handlers at gates (engine BeforeEvent hook, "
               "before each Schedule, before return) and issues Pause() at the moments the models distinguish (before dispatch, mid-handler, "
               "between events), logs pause_ret/continue/start/end under one mutex, and TLC validates the log against ParTrace.tla.")
-LEVEL_NOTE = ("The serial engine's Pause only raises a flag (W11, known finding): ParTrace_serial.cfg tolerates exactly that class "
-              "(a running handler may finish; one dispatch that already passed the flag check may start); the parallel engine is held to the strict rule.")
+LEVEL_NOTE = ("Both engines are held to the strict rule (ParTrace_strict.cfg / ParTrace_parallel.cfg). The serial engine failed it before the repair of W11 "
+              "(fix: SerialEngine.Pause waits for the event being handled); SerialPause_hyp.cfg keeps the old design as a negative control that TLC must refute.")
 
 
 def run(ck):
@@ -21,21 +21,22 @@ def run(ck):
     if not r.ok:
         raise core.Broken("SerialPause liveness fails: %s" % r.violated)
     h = ck.run_tlc(["engine"], "SerialPause", "SerialPause_hyp.cfg", workers=2, timeout=300)
-    ck.note("serial Quiescent on the model: %s" % ("holds" if h.ok else "violated (hypothesis W11)"))
+    if h.ok:
+        raise core.Broken("negative control: the flag-only Pause design (DispatchLock = FALSE) must violate Quiescent")
     r = ck.run_tlc(["engine"], "ParEngine", "ParEngine_q.cfg" if q else "ParEngine_t.cfg", workers=8 if q else 16, timeout=3000)
     if not r.ok:
         raise core.Broken("ParEngine.tla violates %s" % r.violated)
-    # hypothesis W11 on the real serial engine: pause while a handler is parked mid-handler / before dispatch completes
+    # the W11 scenario (pause while a handler is parked mid-handler / before the dispatch completes) must now be accepted
     c04.run_traces(ck, "w11-scenario", "ParTrace_strict.cfg", dict(scenario="w11", engine="serial", gated=True, policy="lowkey", pauses=1, pause_mid=True),
                    key_extra={"class": "serial_pause_flag_only"})
     given = c04.sample_programs(ck, 60 if q else 600)
     # serial engine, W11 class tolerated, everything else strict
-    c04.run_traces(ck, "serial-gated", "ParTrace_serial.cfg", dict(engine="serial", gated=True, policy="random", pauses=2,
+    c04.run_traces(ck, "serial-gated", "ParTrace_strict.cfg", dict(engine="serial", gated=True, policy="random", pauses=2,
                                                                   given=given, programs=10 if q else 100, max_events=30))
     # parallel engine, strict pause
     c04.run_traces(ck, "parallel-gated", "ParTrace_parallel.cfg", dict(engine="parallel", procs_cycle=True, gated=True, policy="random", pauses=2,
                                                                       given=given, programs=10 if q else 100, max_events=30))
     c04.run_traces(ck, "parallel-free", "ParTrace_parallel.cfg", dict(engine="parallel", procs_cycle=True, gated=False, spin=30, pauses=3,
                                                                      programs=40 if q else 800, max_events=150))
-    c04.run_traces(ck, "serial-free", "ParTrace_serial.cfg", dict(engine="serial", gated=False, spin=30, pauses=3,
+    c04.run_traces(ck, "serial-free", "ParTrace_strict.cfg", dict(engine="serial", gated=False, spin=30, pauses=3,
                                                                   programs=40 if q else 800, max_events=150))
